@@ -35,8 +35,9 @@ func c05Bundles() []nhBundle {
 	foreign := base
 	foreign.Src, foreign.Rpt = "dtn://far/app", "dtn://far/app"
 	foreign.PaySeed = 3
-	// a block the node supports, carrying every "if this block cannot be processed" flag: none of them applies
-	foreign.Ext = []gen.BSpec{{Kind: "hop", N: []uint64{30, 2}, Flags: ref.BDelete | ref.BRemove | ref.BReport}}
+	// a block the node supports, carrying every "if this block cannot be processed" flag: none of them applies;
+	// the hop count reaches exactly its limit at this node (3 of 3): the last permitted hop, not an excess
+	foreign.Ext = []gen.BSpec{{Kind: "hop", N: []uint64{3, 2}, Flags: ref.BDelete | ref.BRemove | ref.BReport}}
 	aged := base
 	aged.PaySeed = 4
 	aged.Src, aged.Rpt = "dtn://node/app2", "dtn://node/app2"                          // another endpoint of this node: no ID clash with b0
